@@ -242,6 +242,7 @@ func (e *Exec) inline(st *State, instr ssa.Instruction, fn *ssa.Function, clo *C
 	for i, p := range fn.Params {
 		if i < len(args) {
 			fr.params[p.Name()] = args[i]
+			fr.params[fmt.Sprintf("param%d", i)] = args[i]
 			fr.env[p] = args[i]
 		}
 	}
